@@ -72,16 +72,17 @@ SingleV == {[form |-> "single", keys |-> <<kd>>, m |-> 1, menc |-> "op", n |-> 1
             : kd \in UNION {KD(k) : k \in K3}}
 FirstSigs(ks, m) == [i \in 1..m |-> Good(ks[i])]
 \* key lists of 2..3 keys in any order (duplicates included), every valid m, canonical pushes, all n encodings
-MultiOrder == {[form |-> "multi", keys |-> [i \in DOMAIN ks |-> CK(ks[i])], m |-> m, menc |-> "op",
-                n |-> Len(ks), nenc |-> ne, sigs |-> FirstSigs(ks, m)]
-               : ks \in KeyLists, m \in 1..3, ne \in {"op", "b1", "b2", "d1"}}
+MultiOrderN(len) == {[form |-> "multi", keys |-> [i \in DOMAIN ks |-> CK(ks[i])], m |-> m, menc |-> "op",
+                      n |-> Len(ks), nenc |-> ne, sigs |-> FirstSigs(ks, m)]
+                     : ks \in SeqsBetween(K3, len, len), m \in 1..len, ne \in {"op", "b1", "b2", "d1"}}
+MultiOrder == MultiOrderN(2) \cup MultiOrderN(3)
 \* two keys, both orders, every encoding / push of each key
 MultiEnc == {[form |-> "multi", keys |-> <<a, b>>, m |-> m, menc |-> "op", n |-> 2, nenc |-> "op",
               sigs |-> FirstSigs(<<a.v, b.v>>, m)]
              : a \in UNION {KD(k) : k \in K3}, b \in UNION {KD(k) : k \in K3}, m \in 1..2}
-SetsC17 == SingleV \cup {s \in MultiOrder : s.m <= Len(s.keys)} \cup MultiEnc
+SetsC17 == SingleV \cup MultiOrder \cup MultiEnc
 TxC17 == {Tx1(PSet(1), s) : s \in SetsC17}
-         \cup {[payer |-> PSet(1), sets |-> <<Single(1, <<Good(1)>>), s>>] : s \in SingleV \cup {s \in MultiOrder : s.m <= Len(s.keys) /\ s.nenc = "op"}}
+         \cup {[payer |-> PSet(1), sets |-> <<Single(1, <<Good(1)>>), s>>] : s \in SingleV \cup {s \in MultiOrder : s.nenc = "op"}}
 
 NextC17 == (phase = "idle" /\ \E t \in TxC17 : Submit(t)) \/ Other
 SpecC17 == Init /\ [][NextC17]_vars
